@@ -8,7 +8,7 @@ usage: tools/seed_eval.py <seed dir with patch.diff demo.c notes.txt> <seed id> 
 import json, os, re, shutil, subprocess, sys
 
 seed, sid, prop = sys.argv[1], sys.argv[2], sys.argv[3]
-WT = "/tmp/wt_confirm"
+WT = os.environ.get("SEED_WT", "/tmp/wt_confirm")   # one scratch worktree per parallel worker
 ALL = ["C%02d" % i for i in range(1, 21)]
 
 
@@ -48,7 +48,7 @@ def demo_cflags():
 
 def compile_demo(bdir, tag):
     """compiled against the headers of the tree as it is right now (a seed may live in a header)"""
-    exe = "/tmp/seed_demo_%s" % tag
+    exe = "/tmp/seed_demo_%s_%s" % (tag, sid)
     c = sh("cc -w %s -I %s/src -I %s -I %s/src %s/demo.c %s/src/libcbor.a -lm -o %s" % (demo_cflags(), WT, bdir, bdir, seed, bdir, exe))
     if c.returncode != 0:
         return None, "demo does not compile: " + c.stderr[-300:]
@@ -95,12 +95,25 @@ meta["demo_unmodified"] = dict(exit=rc0, tail=o0[-300:])
 meta["demo_modified"] = dict(exit=rc1, tail=o1[-300:])
 meta["demo_discriminates"] = rc0 == 0 and rc1 not in (0, None)
 shutil.rmtree(WT + "/_b1", ignore_errors=True)
-# evaluate the checks on /repo with the patch applied, then undo
-a = sh("git -C /repo apply %s/patch.diff" % seed)
+# evaluate the checks on /repo with the patch applied, then undo - or, when several seeds are evaluated in parallel (SEED_SCRATCH=1),
+# on a scratch copy of /repo's sources with the patch applied (VERIF_REPO), which leaves /repo alone
+SCR = None
+if os.environ.get("SEED_SCRATCH"):
+    import tempfile
+    SCR = tempfile.mkdtemp(prefix="sev-", dir="/tmp")
+    shutil.copytree("/repo/src", SCR + "/src")
+    shutil.copy("/repo/CMakeLists.txt", SCR + "/CMakeLists.txt")
+    sys.path.insert(0, "/verif/lib")
+    import corpus as _corpus
+    a = sh("cd / && git apply --unsafe-paths --directory=%s %s" % (SCR, _corpus.library_part(os.path.join(seed, "patch.diff"), SCR)))
+    if a.returncode == 0 and not sh("diff -rq /repo/src %s/src" % SCR).stdout.strip():
+        a.returncode = 1          # nothing was applied
+else:
+    a = sh("git -C /repo apply %s/patch.diff" % seed)
 fired = {}
 try:
     if a.returncode == 0:
-        r = sh("cd /verif && VERIF_SELFTEST=1 python3 bin/check.py %s" % " ".join(ALL))
+        r = sh("cd /verif && %sVERIF_SELFTEST=1 python3 bin/check.py %s" % (("VERIF_REPO=%s " % SCR) if SCR else "", " ".join(ALL)))
         for line in r.stdout.splitlines():
             mm = re.match(r"SELFTEST-VIOLATION property=(C\d+) rule=(\S+)", line)
             if mm:
@@ -110,7 +123,10 @@ try:
         first = [l for l in r.stdout.splitlines() if ": rule " in l][:6]
         meta["first_reports"] = [l[:400] for l in first]
 finally:
-    sh("git -C /repo checkout -- .")
+    if SCR:
+        shutil.rmtree(SCR, ignore_errors=True)
+    else:
+        sh("git -C /repo checkout -- .")
 meta["checks_fired"] = {k: sorted(v) for k, v in sorted(fired.items())}
 meta["caught_by_owning_check"] = prop in fired
 meta["caught_by_any_check"] = bool(fired)
@@ -122,6 +138,6 @@ for fn in ("patch.diff", "demo.c", "notes.txt"):
 notes = open(os.path.join(seed, "notes.txt")).read() if os.path.exists(os.path.join(seed, "notes.txt")) else ""
 meta["needs_to_manifest"] = notes.strip()[:1500]
 meta["what_was_run"] = ["cmake+ninja build of the change in scratch worktree /tmp/wt_confirm", "ctest (26 executables / 301 tests) with the change",
-                        "demo.c against unmodified and modified libcbor.a", "git -C /repo apply; python3 bin/check.py C01..C20 (VERIF_SELFTEST=1); git -C /repo checkout -- ."]
+                        "demo.c against unmodified and modified libcbor.a", ("scratch copy of /repo/src with the patch applied (VERIF_REPO); python3 bin/check.py C01..C20 (VERIF_SELFTEST=1)" if SCR else "git -C /repo apply; python3 bin/check.py C01..C20 (VERIF_SELFTEST=1); git -C /repo checkout -- .")]
 json.dump(meta, open(os.path.join(dst, "meta.json"), "w"), indent=1)
 print(json.dumps({k: meta[k] for k in ("id", "property", "pinned_suite_passes", "demo_discriminates", "checks_fired", "analysis_broken")}, indent=1))
